@@ -149,11 +149,26 @@ class Verdict:
                 "finalOk": self.final_ok}
 
 
+VALIDATE_CHUNK = 6000     # traces per TLC invocation: beyond ~10^4 traces one JVM spends its time in the collector (measured: 41k traces, no end in 50 min)
+
+
 def validate(recs, workers=16, timeout=3000, keep_file=None):
     """TLC over a batch of ok-status trace records.  Returns (dict id -> Verdict, TlcResult)."""
     todo = [r for r in recs if "project" in r]
     if not todo:
         return {}, None
+    if len(todo) > VALIDATE_CHUNK and not keep_file:
+        out, total = {}, None
+        for i in range(0, len(todo), VALIDATE_CHUNK):
+            vs, res = validate(todo[i:i + VALIDATE_CHUNK], workers=workers, timeout=timeout)
+            out.update(vs)
+            if total is None:
+                total = res
+            else:
+                total.generated += res.generated
+                total.distinct += res.distinct
+                total.wall += res.wall
+        return out, total
     fd, path = tempfile.mkstemp(prefix="sptrace_", suffix=".ndjson")
     try:
         with os.fdopen(fd, "w") as f:
